@@ -19,6 +19,7 @@ from __future__ import annotations
 
 import collections
 import copy
+import itertools
 import json
 import sys
 import time
@@ -152,7 +153,7 @@ def same_result(seq, comp, order_step) -> Tuple[bool, str]:
 # --------------------------------------------------------------------------------------------------
 
 
-def eval_case(chain: Dict[str, Any], cuts: List[int], data_sets: List[Tuple[int, Dict[str, Any]]]) -> Dict[str, Any]:
+def eval_case(chain: Dict[str, Any], cuts: List[int], data_sets: List[Tuple[int, Dict[str, Any]]], _classify: bool = True) -> Dict[str, Any]:
     from data_algebra.arrow import DataOpArrow
 
     res: Dict[str, Any] = {"fails": [], "compared": 0, "skipped": collections.Counter(), "routes": []}
@@ -241,14 +242,16 @@ def eval_case(chain: Dict[str, Any], cuts: List[int], data_sets: List[Tuple[int,
             res["routes"].append("assoc:" + style)
             res.setdefault("composed", left)
             if not (left == right) or not (right == left) or (left != right):
+                res.setdefault("assoc_sides", []).append((left, right))
                 res["fails"].append(["assoc:" + style, "assoc-eq", "(a >> b) >> c != a >> (b >> c): %s vs %s" % (O.short(_one_line(left), 150), O.short(_one_line(right), 150))])
             check_composed("assoc:" + style + ":left", left)
             check_composed("assoc:" + style + ":right", right)
     res["skipped"] = dict(res["skipped"])
     res["status"] = "fail" if res["fails"] else ("ok" if res["compared"] > 0 else ("no-data" if not usable else "both-raise"))
-    if res["fails"]:
-        res["keys"] = classify(chain, cuts, segs, res)
+    if res["fails"] and _classify:
+        res["keys"] = classify(chain, cuts, segs, res, data_sets)
     res.pop("composed", None)
+    res.pop("assoc_sides", None)
     return res
 
 
@@ -261,75 +264,122 @@ def _one_line(ops) -> str:
 # --------------------------------------------------------------------------------------------------
 
 
-def _strip_all(steps):
-    """build_pipe steps with the None entries of every map_columns map removed, nested right hand sides included"""
-    out, changed = [], False
-    for op, p in steps:
-        p = dict(p)
-        if op == "map_columns" and any(v is None for v in p["map"].values()):
-            p["map"] = {k: v for k, v in p["map"].items() if v is not None}
-            changed = True
-        if isinstance(p.get("b"), dict):
-            b = dict(p["b"])
-            b["steps"], ch = _strip_all(b["steps"])
-            changed = changed or ch
-            p["b"] = b
-        out.append([op, p])
-    return out, changed
+class _Repaired:
+    """Counterfactual used ONLY to name the cause of an observed failure: temporarily replace exactly one
+    (or both) of the two replace_leaves methods known to be wrong on the pinned tree by a correct version."""
+
+    def __init__(self, which):
+        self.which = which
+        self.saved = []
+
+    def __enter__(self):
+        import data_algebra.view_representations as vr
+
+        if "select" in self.which:
+            self.saved.append((vr.SelectRowsNode, vr.SelectRowsNode.replace_leaves))
+
+            def rl_select(node, replacement_map):
+                new_sources = [s.replace_leaves(replacement_map) for s in node.sources]
+                return new_sources[0].select_rows_parsed_(parsed_expr=node.ops)
+
+            vr.SelectRowsNode.replace_leaves = rl_select
+        if "map" in self.which:
+            self.saved.append((vr.MapColumnsNode, vr.MapColumnsNode.replace_leaves))
+
+            def rl_map(node, replacement_map):
+                new_sources = [s.replace_leaves(replacement_map) for s in node.sources]
+                m = dict(node.column_remapping)
+                m.update({k: None for k in node.column_deletions})
+                return new_sources[0].map_columns(column_remapping=m)
+
+            vr.MapColumnsNode.replace_leaves = rl_map
+        if "extend" in self.which:
+            self.saved.append((vr.ExtendNode, vr.ExtendNode.replace_leaves))
+
+            def rl_extend(node, replacement_map):
+                new_sources = [s.replace_leaves(replacement_map) for s in node.sources]
+                pb = 1 if (node.windowed_situation and len(node.partition_by) == 0) else node.partition_by
+                return new_sources[0].extend_parsed_(parsed_ops=node.ops, partition_by=pb, order_by=node.order_by, reverse=node.reverse)
+
+            vr.ExtendNode.replace_leaves = rl_extend
+        return self
+
+    def __exit__(self, *exc):
+        for cls, fn in reversed(self.saved):
+            cls.replace_leaves = fn
+        return False
 
 
-def _variant_without_deletions(chain, lo):
-    """Model of `MapColumnsNode.replace_leaves forgets column_deletions`: the whole chain built DIRECTLY, with
-    the deletions of every map_columns inside the replaced segments (steps >= lo, their nested right hand
-    sides included) removed.  -> (changed, structural dump | None, 'ExcType: message' | None)"""
+def _canon_runs(ops):
+    """structure of a pipeline with every run of consecutive ExtendNodes that share their window
+    parameters written as ONE list of assignments (in application order)"""
     from cbc.c12 import pipe_dump
 
-    n = len(chain["steps"])
-    tail, changed = _strip_all(_conv_steps(chain["steps"], lo, n))
-    if not changed:
-        return False, None, None
-    spec = {"table": chain["table"], "cols": list(C.SCHEMAS[chain["table"]].keys()), "steps": _conv_steps(chain["steps"], 0, lo) + tail}
-    try:
-        return True, pipe_dump(O.build_pipe(spec)), None
-    except Exception as e:
-        return True, None, "%s: %s" % (type(e).__name__, str(e)[:200])
+    def win(n):
+        return (bool(n.windowed_situation), tuple(n.partition_by), tuple(n.order_by), tuple(n.reverse))
+
+    def rec(n):
+        if type(n).__name__ == "ExtendNode":
+            run = []
+            cur = n
+            while type(cur).__name__ == "ExtendNode" and win(cur) == win(n):
+                run.append([(k, O.term_dump(v)) for k, v in cur.ops.items()])
+                cur = cur.sources[0]
+            assigns = tuple(x for part in reversed(run) for x in part)
+            return ("ExtendRun", win(n), assigns, rec(cur))
+        d = pipe_dump(n)
+        return (d[0], d[1], tuple(rec(s) for s in n.sources))
+
+    return rec(ops)
 
 
-def _has_node(ops, cls_name: str) -> bool:
-    stack = [ops]
+def _nodes(ops):
+    out, stack, seen = [], [ops], set()
     while stack:
         n = stack.pop()
-        if type(n).__name__ == cls_name:
-            return True
-        stack.extend(n.sources)
-    return False
-
-
-def classify(chain, cuts, segs, res) -> Dict[str, List[str]]:
-    from cbc.c12 import pipe_dump
-
-    keys: Dict[str, List[str]] = collections.OrderedDict()
-    lo = cuts[0]
-    replaced = [ops for ops, _ in segs[1:]]  # the pipelines whose leaves get replaced
-    changed, variant_dump, variant_err = _variant_without_deletions(chain, lo)
-    for tag, kind, det in res["fails"]:
-        msg = "%s %s: %s" % (tag, kind, det)
-        # (1) SelectRowsNode.replace_leaves passes a wrong keyword
-        if kind == "raise" and "select_rows_parsed_() got an unexpected keyword argument 'parsed_ops'" in det and any(_has_node(r, "SelectRowsNode") for r in replaced):
-            keys.setdefault("%s:view_representations.SelectRowsNode.replace_leaves:select_rows-in-replaced-pipeline" % PID, []).append(msg)
+        if id(n) in seen:
             continue
-        # (2) MapColumnsNode.replace_leaves rebuilds the node from column_remapping only: deletions are lost.
-        #     Narrow test: the composed pipeline IS the chain built directly without those deletions (same
-        #     structural dump), or composing raises exactly where building that chain raises.
-        if changed and any(_has_node(r, "MapColumnsNode") for r in replaced):
-            comp = res.get("composed")
-            if kind in ("result", "cod", "assoc-eq") and comp is not None and variant_dump is not None and pipe_dump(comp) == variant_dump:
-                keys.setdefault("%s:view_representations.MapColumnsNode.replace_leaves:map_columns-deletion-lost" % PID, []).append(msg)
-                continue
-            if kind == "raise" and variant_err is not None and det == variant_err:
-                keys.setdefault("%s:view_representations.MapColumnsNode.replace_leaves:map_columns-deletion-lost" % PID, []).append(msg)
-                continue
-        keys.setdefault("%s:unclassified:%s" % (PID, O.uhash([kind, det.split(":")[0] if kind == "raise" else "", [s[0] for s in chain["steps"][lo:]]])), []).append(msg)
+        seen.add(id(n))
+        out.append(n)
+        stack.extend(n.sources)
+    return out
+
+
+def classify(chain, cuts, segs, res, data_sets) -> Dict[str, List[str]]:
+    """The failure is attributed to a known defect iff it disappears when exactly that function is repaired
+    (and the replaced segments contain the triggering node); the smallest sufficient set of repairs names the keys."""
+    keys: Dict[str, List[str]] = collections.OrderedDict()
+    msgs = ["%s %s: %s" % (t, k, d) for t, k, d in res["fails"]]
+    replaced = [n for ops, _ in segs[1:] for n in _nodes(ops)]  # nodes of the pipelines whose leaves get replaced
+    cand = []
+    if any(type(n).__name__ == "SelectRowsNode" for n in replaced):
+        cand.append("select")
+    if any(type(n).__name__ == "MapColumnsNode" and len(n.column_deletions) > 0 for n in replaced):
+        cand.append("map")
+    import data_algebra.expr_rep as er
+
+    if any(type(n).__name__ == "ExtendNode" and n.windowed_situation and len(n.partition_by) == 0 and len(n.order_by) == 0 and not er.implies_windowed(n.ops) for n in replaced):
+        cand.append("extend")  # a window that exists only because of partition_by=1
+    combos = [(c,) for c in cand] + [t for t in itertools.combinations(cand, 2)] + ([tuple(cand)] if len(cand) == 3 else [])
+    # associativity by ==: the two sides differ only in how consecutive compatible extend steps were merged
+    if all(k == "assoc-eq" for _, k, _ in res["fails"]) and res.get("assoc_sides"):
+        if all(_canon_runs(l) == _canon_runs(r) for l, r in res["assoc_sides"]):
+            keys["%s:view_representations.ViewRepresentation.extend_parsed_:extend-merge-grouping-depends-on-association" % PID] = msgs
+            return keys
+    names = {
+        "extend": "%s:view_representations.ExtendNode.replace_leaves:partition_by-1-lost" % PID,
+        "select": "%s:view_representations.SelectRowsNode.replace_leaves:select_rows-in-replaced-pipeline" % PID,
+        "map": "%s:view_representations.MapColumnsNode.replace_leaves:map_columns-deletion-lost" % PID,
+    }
+    for combo in combos:
+        with _Repaired(combo):
+            r2 = eval_case(chain, cuts, data_sets, _classify=False)
+        if r2["status"] != "fail":
+            for c in combo:
+                keys[names[c]] = msgs
+            return keys
+    kinds = sorted(set((k, d.split(":")[0] if k == "raise" else "") for _, k, d in res["fails"]))
+    keys["%s:unclassified:%s" % (PID, O.uhash([kinds, [s[0] for s in chain["steps"][cuts[0] :]]]))] = msgs
     return keys
 
 
@@ -340,8 +390,8 @@ def classify(chain, cuts, segs, res) -> Dict[str, List[str]]:
 
 def scope(tier: str) -> Dict[str, Any]:
     if tier == "quick":
-        return {"per_case": 2, "d3_shard": 5, "d4_shard": 0, "max_rows": 3, "cap": 24}
-    return {"per_case": 3, "d3_shard": 1, "d4_shard": 40, "max_rows": 3, "cap": 40}
+        return {"per_case": 2, "d3_shard": 8, "d4_shard": 0, "max_rows": 3, "cap": 24}
+    return {"per_case": 3, "d3_shard": 1, "d4_shard": 80, "max_rows": 3, "cap": 40}
 
 
 def make_cases(tier: str, seed: int) -> List[Dict[str, Any]]:
@@ -356,6 +406,8 @@ def make_cases(tier: str, seed: int) -> List[Dict[str, Any]]:
     k = sc["d3_shard"]
     for i, spec in enumerate(C.gen_pipelines(3, tier, two_table=True, backends=BACKENDS, reduced=True)):
         if i % k != seed % k:
+            if all(op == "extend" and not p.get("partition_by") and not p.get("order_by") for op, p in spec["steps"]):
+                add(spec, [1, 2])  # triples of row-wise extends are always included (merge grouping), whatever the shard
             continue
         add(spec, [1])  # 1 + 2
         add(spec, [2])  # 2 + 1
@@ -421,11 +473,11 @@ def bounded(rep: Report, tier: str, seed: int) -> None:
                     rep.violations.append(
                         Violation(
                             key=key,
-                            what="%s cut at %s: %s" % (C.describe(r["chain"]), r["cuts"], O.short("; ".join(dets[:2]), 420)),
+                            what="%s cut at %s: %s" % (C.describe(r["chain"]), r["cuts"], O.short("; ".join(dets[:2]), 420).replace("\n", " ").replace("\t", " ")),
                             replay={"module": "cbc.c07", "case": {"chain_json": json.dumps(r["chain"]), "cuts": r["cuts"], "dis": r["dis"], "pool_args": list(pool_args)}, "n_keys": len(r["keys"]), "n_steps": len(r["ids"])},
                         )
                     )
-    rep.violations.sort(key=lambda v: (v.replay.get("n_keys", 1), v.replay.get("n_steps", 9), len(v.replay["case"]["cuts"]), len(v.what), v.key, v.what))
+    rep.violations.sort(key=lambda v: (v.replay.get("n_keys", 1), v.replay.get("n_steps", 9), len(v.replay["case"]["cuts"]), 0 if " result: " in v.what else 1, len(v.what), v.key, v.what))
     rep.extra["status_counts"] = dict(counts)
     rep.extra["case_shapes"] = dict(shapes)
     rep.extra["routes_composed"] = dict(routes)
